@@ -178,6 +178,10 @@ func genForest(t *rapid.T, o forestOpts) forest {
 			l := fmt.Sprintf("e%d", i)
 			if rapid.IntRange(0, 9).Draw(t, l+"-ski") < 4 {
 				e.Extensions = append(e.Extensions, core.Extension{Kind: core.KSKI, HasContent: true, SKI: "hash"})
+			} else if rapid.IntRange(0, 5).Draw(t, l+"-rawski") == 0 {
+				// a subject key identifier chosen by hand (a well-formed OCTET STRING that is not the key hash)
+				e.Extensions = append(e.Extensions, core.Extension{Kind: core.KSKI, Raw: core.Bin(append([]byte{4, 6}, genRawBytes(t, l+"-rawskib", 6)[:1]...))})
+				e.Extensions[len(e.Extensions)-1].Raw.Bytes = append([]byte{4, 6, 0xde, 0xad, 0xbe, 0xef, 0x00}, byte(i))
 			}
 			if rapid.IntRange(0, 9).Draw(t, l+"-aki") < 4 {
 				e.Extensions = append(e.Extensions, core.Extension{Kind: core.KAKI, HasContent: true, AKI: "hash"})
